@@ -53,6 +53,8 @@ def phase_of(ev):
     site, ident = ev[1], ev[2]
     if site == 'test.sub':
         return 'sub#' + ident.rsplit('#', 1)[1]
+    if site == 'test.ex':
+        return 'ex#' + ident.rsplit('#', 1)[1]
     if site.startswith('test.'):
         return site[5:]
     return None
@@ -85,6 +87,8 @@ def fired_kinds(trace):
 def test_phases(d):
     """Phases of a discovered test at which a fault can be injected."""
     t, c = d['t'], d['c']
+    if t.get('doctest'):
+        return ['ex#%d' % i for i in range(t['doctest'])]
     if t.get('deco') == 'skip':
         return []
     ph = ['body']
@@ -104,6 +108,8 @@ def test_phases(d):
 def fault_entry(d, phase, action):
     if phase.startswith('sub#'):
         e = {'site': 'test.sub', 'ident': '%s#%s' % (d['tid'], phase[4:])}
+    elif phase.startswith('ex#'):
+        e = {'site': 'test.ex', 'ident': '%s#%s' % (d['tid'], phase[3:])}
     else:
         e = {'site': 'test.' + phase, 'ident': d['tid']}
     e.update(action)
@@ -119,6 +125,8 @@ def gen_test_faults(rng, disc, n, excs=TEST_EXC_ALL, p_occ=0.0):
         d = rng.choice(cands)
         ph = rng.choice(test_phases(d))
         exc = rng.choice(excs)
+        if d['t'].get('doctest') and exc == 'SkipTest':
+            exc = 'ValueError'
         e = fault_entry(d, ph, {'a': 'raise', 'exc': exc})
         if rng.random() < p_occ:
             e['occ'] = rng.randint(0, 1)
